@@ -132,12 +132,21 @@ fn int_case(c: &Value) -> Option<(String, Value, Value)> {
 fn mixed_case(c: &Value, rng: &mut Rng) -> Option<(String, Value, Value)> {
     let (lk, rk, form, assign) = (s(c, "lk"), s(c, "rk"), s(c, "form"), c["assign"].as_bool().unwrap());
     let u = unit(&c["u"]);
-    for _ in 0..4 {
-        let q = Quantity::new(rng.float(-10, 10), u);
-        let t1 = Time(rng.range(-(1 << 50), 1 << 50));
-        let t2 = Time(rng.range(1, 1 << 50) * if rng.next() & 1 == 0 { 1 } else { -1 });
-        let d1 = DimensionlessInteger(rng.range(-(1 << 40), 1 << 40));
-        let d2 = DimensionlessInteger(rng.range(1, 1 << 40) * if rng.next() & 1 == 0 { 1 } else { -1 });
+    // sums / differences that do not panic are the forms where the order "round the integer to f32, then add" is observable: many more trials
+    let rounds = if !c["panic"].as_bool().unwrap() && matches!(form, "add" | "sub") { 400 } else { 12 };
+    for _ in 0..rounds {
+        // magnitudes are stratified (uniform in the exponent), so that the float operand is often comparable to the rounding step
+        // of the converted integer operand: that is where "convert, then apply the Quantity operator" differs from anything else
+        let strat = |r: &mut Rng, max_bits: u32| -> i64 {
+            let bits = r.range(1, max_bits as i64) as u32;
+            let v = ((r.next() >> (64 - bits)) | (1u64 << (bits - 1))) as i64;
+            if r.next() & 1 == 0 { v } else { -v }
+        };
+        let q = Quantity::new(rng.float(-10, 30), u);
+        let t1 = Time(strat(rng, 55));
+        let t2 = Time(strat(rng, 55));
+        let d1 = DimensionlessInteger(strat(rng, 45));
+        let d2 = DimensionlessInteger(strat(rng, 45));
         macro_rules! qop {
             ($x:expr, $y:expr) => {{
                 let (x, y): (Quantity, Quantity) = ($x, $y);
